@@ -66,7 +66,11 @@ Init == l = 1 /\ memo = {}
 Go ==
   /\ l <= Len(Rec) /\ Rec[l].ev = "go"
   /\ LET e == Rec[l] IN
-     IF "setup_error" \in DOMAIN e
+     IF "hung" \in DOMAIN e
+     THEN /\ Report(F(FALSE, "PANIC", "the search did not return within 15 s after the stop flag went down (wedged)",
+                      [fen |-> e.fen, pre |-> e.pre, limit |-> e.limit, stop |-> e.stop, h |-> e.h, s |-> e.s]))
+          /\ memo' = memo
+     ELSE IF "setup_error" \in DOMAIN e
      THEN /\ Report(F(FALSE, "HARNESS", "scenario could not be set up", [err |-> e.setup_error]))
           /\ memo' = memo
      ELSE
